@@ -324,7 +324,7 @@ func TestC20(t *testing.T) {
 	run.Rule("rapid-generated packet sequences of length 1-12 over all 14 types (CONNECT first in 3 of 4 cases, otherwise any type) and, in 1 of 4 cases, request-only sequences of 13-45 packets (PUBLISH/SUBSCRIBE/UNSUBSCRIBE/PINGREQ/PUBREL) that exceed the broker's per-connection token pools, backend with and without credentials, CONNECT with right/wrong/missing credentials, arbitrary repeated packet ids from {1,2,3,7,65535}, 1-8 filters per SUBSCRIBE, sent in one burst; compared with the protocol response model (multisets; a SUBSCRIBE and a PINGREQ round trip close the observation window). non-trivial = first packet is not CONNECT, or >= 3 pipelined requests after CONNECT; distinct by case JSON")
 	run.Assume("publish topics and subscription filters are disjoint so no deliveries are mixed into the responses; at most 9 QoS 2 PUBLISH per connection (the broker's flow control would otherwise block by design)")
 	defer run.Finish(t)
-	run.Rapid(t, "sequences", ev.Pick(1500, 150000), func(rt *rapid.T) {
+	run.Rapid(t, "sequences", ev.Pick(3000, 150000), func(rt *rapid.T) {
 		c := genCase(rt)
 		run.Eval(1)
 		first := c.Packets[0].Type
